@@ -69,3 +69,14 @@ PROPS["C20"] = {
                     {"checks": 3000, "shards": 16, "env": {"C20_MAXU": 40}})],
     }],
 }
+
+PROPS["C14"] = {
+    "level": "exploration",
+    "assumptions": ["encoding/json's decoder is the trusted inverse (independent of easyjson, which encodes arp/icmp/tcp results)",
+                    "invalid UTF-8 in string fields compares as U+FFFD: JSON cannot carry it and no sx code path produces it"],
+    "units": [{
+        "pkg": "command/log",
+        "tests": [T("TestC14JSON", {"checks": 1200, "shards": 2}, {"checks": 8000, "shards": 8}),
+                  T("TestC14Unique", {"checks": 800, "shards": 2}, {"checks": 5000, "shards": 8})],
+    }],
+}
